@@ -334,3 +334,24 @@ reg("C17", "c17", [("calls", "plain", 1)], "exploration",
                "refusals required exactly for the calls the documented rules forbid.",
     level_note="Trusts vlib/spec_blas.py and numpy.",
     design_ref="4/C17")
+
+reg("C18", "c18", [("calls", "plain", 1)], "exploration",
+    rule="Hypothesis draws a LAPACK scenario: one of 14 families covering all 60 routines of cvxopt.lapack (general, band, "
+         "tridiagonal, positive definite, positive definite band/tridiagonal, symmetric/Hermitian indefinite, triangular "
+         "and triangular band systems with drivers, factor/solve/invert pairs; gels; QR/LQ with generation of and products "
+         "with Q, pivoted QR; symmetric/Hermitian and generalized eigenproblems with all drivers and range options; SVD "
+         "with every job option; Schur and generalized Schur forms with select callbacks; lacpy, larfg, larfx), typecode "
+         "d/z, orders 0..5, 0..3 right-hand sides, uplo/trans/diag/job options, band widths 0..2, and for every matrix "
+         "argument either its natural shape with all optional arguments omitted, or leading dimension minimum..+2, offset "
+         "0..3 and padding inside a larger buffer filled with junk; one system in six is exactly singular / not positive "
+         "definite. Non-trivial = order >= 2 with a complex, embedded or default-argument form.",
+    assumptions=["matrices are built with prescribed singular values / eigenvalues in [0.5, 2] (well conditioned)",
+                 "residuals are judged with 2e-10 relative to ||A|| ||X|| + ||B|| (observed level 1e-15)",
+                 "eigenvalues of non-normal matrices are compared through power sums (well conditioned)"],
+    technique="property-based testing against defining equations (Hypothesis): residuals, reconstruction, orthonormality, "
+              "driver-vs-factor/solve agreement, untouched-outside-block, ArithmeticError for exactly singular input",
+    level_text="~2.5e5 (quick) / 6e6 (thorough) generated LAPACK scenarios over all 60 wrappers; each checks the documented "
+               "defining equations with numpy, that A is unmodified when no factor output is requested, and that nothing "
+               "outside the addressed blocks changes.",
+    level_note="Trusts numpy.linalg for reference eigenvalues / singular values / pseudo-inverses.",
+    design_ref="4/C18")
